@@ -24,6 +24,8 @@ theorem stepEv_answers (cfg : Config) (srv : Server) (e : Event) : Answers srv e
   | «open» c ip => simp only [stepEv, Answers]; split <;> rfl
   | close c => rfl
   | expire sid => rfl
+  | frame c => rfl
+  | response c => rfl
   | req c r =>
     simp only [stepEv, Answers]
     cases h : findConn srv c with
@@ -77,6 +79,8 @@ theorem responses_echo_cseq (cfg : Config) : ∀ (evs : List Event) (srv : Serve
     | «open» c ip => simp only [Answers] at ha; simp [run, delivered, ha, ih]
     | close c => simp only [Answers] at ha; simp [run, delivered, ha, ih]
     | expire sid => simp only [Answers] at ha; simp [run, delivered, ha, ih]
+    | frame c => simp only [Answers] at ha; simp [run, delivered, ha, ih]
+    | response c => simp only [Answers] at ha; simp [run, delivered, ha, ih]
     | req c r =>
       simp only [Answers] at ha
       by_cases hc : (findConn srv c).isSome = true
